@@ -185,6 +185,27 @@ theorem symmetric_send_deadlocks :
     · subst h1; simp [stepP, symmetricSend, sendOk, room, headIsRecvFrom]
     · simp [stepP, symmetricSend, h0, h1]
 
+/-! ### a chain that leaves its loop early (its own `max_time`, an exception of its target)
+
+  The theorems above are about chains that all run the whole schedule. The choreography has no
+  message for "I have stopped": a chain that ends before a scheduled exchange leaves its partner
+  in a receive that nobody will ever answer, whatever the capacity of the pipes (a negative theorem;
+  the witness - two chains with different time limits - is replayed on hmclab by the harness and
+  recorded in known_findings.json). -/
+
+/-- chain 0 has stopped before the exchange; chain 1, the master of the pair, waits for its state -/
+def partnerStopped : Sys Unit Unit :=
+  { prog := fun p => if p = 1 then [Act.recv 0 (fun s _ => s), Act.send 0 (fun _ => ())] else [],
+    store := fun _ => (), chan := fun _ _ => [] }
+
+theorem stopped_partner_blocks_forever (cap : Option Nat) :
+    (∀ i, stepP cap partnerStopped i = none) ∧ partnerStopped.prog 1 ≠ [] := by
+  refine ⟨?_, by simp [partnerStopped]⟩
+  intro i
+  by_cases h1 : i = 1
+  · subst h1; simp [stepP, partnerStopped]
+  · simp [stepP, partnerStopped, h1]
+
 /-! ### the reference run writes exactly `P` columns per chain -/
 
 private theorem seqRun_append (a b : List (GEv (ChainSt V α) (TMsg V α))) (st : Nat → ChainSt V α) :
